@@ -669,17 +669,30 @@ func getCheckPointInfo(opts ...Option) (checkPointID *string, stateModifier Stat
 			checkPointID = opt.checkPointID
 		}
 		if opt.stateModifier != nil {
-			stateModifier = opt.stateModifier
+			modifier := opt.stateModifier
 			if len(opt.paths) > 0 {
 				// designated to (nested graph) nodes: it only sees the state of those graphs
 				inner, paths := opt.stateModifier, opt.paths
-				stateModifier = func(ctx context.Context, path NodePath, state any) error {
+				modifier = func(ctx context.Context, path NodePath, state any) error {
 					for _, p := range paths {
 						if p != nil && equalNodePath(p.path, path.path) {
 							return inner(ctx, path, state)
 						}
 					}
 					return nil
+				}
+			}
+			if stateModifier == nil {
+				stateModifier = modifier
+			} else {
+				// several modifiers in one call (one per nested graph, say): each of them is applied, in
+				// the order they were given
+				earlier := stateModifier
+				stateModifier = func(ctx context.Context, path NodePath, state any) error {
+					if err := earlier(ctx, path, state); err != nil {
+						return err
+					}
+					return modifier(ctx, path, state)
 				}
 			}
 		}
